@@ -134,3 +134,38 @@ func vpH_C20_hist() {
 	vpCover(accepted == K, "all accepted")
 	vpCover(accepted == 1, "only the first accepted")
 }
+
+// two_concurrent: two validations for the same author run concurrently (every interleaving of their lock operations,
+// symbolic seqnos): the same seqno is never accepted twice and the store ends at the highest accepted seqno.
+func vpHC_C20_two_concurrent() {
+	store := &vpFakeStore{val: map[peer.ID][]byte{}}
+	v := &BasicSeqnoValidator{meta: store}
+	b1, b2 := vpBytes("seqno", 8), vpBytes("seqno", 8)
+	s1, s2 := binary.BigEndian.Uint64(b1), binary.BigEndian.Uint64(b2)
+	var r1, r2 ValidationResult
+	t1 := vpGo(func() { r1 = v.validate(context.Background(), "B", vpSeqnoMsg("A", b1)) })
+	t2 := vpGo(func() { r2 = v.validate(context.Background(), "B", vpSeqnoMsg("A", b2)) })
+	vpWait()
+	vpAssert(vpThreadDone(t1) && vpThreadDone(t2), "both validations return")
+	a1, a2 := r1 == ValidationAccept, r2 == ValidationAccept
+	if a1 && a2 {
+		vpAssert(s1 != s2, "the same sequence number is never accepted twice, also when validated concurrently")
+	}
+	var cur uint64
+	if b := store.val["A"]; len(b) > 0 {
+		cur = binary.BigEndian.Uint64(b)
+	}
+	var high uint64
+	if a1 {
+		high = s1
+	}
+	if a2 && s2 > high {
+		high = s2
+	}
+	vpAssert(cur == high, "the stored nonce equals the highest accepted sequence number")
+	if s1 > 0 && s2 > 0 {
+		vpAssert(a1 || a2, "one of two fresh sequence numbers is accepted")
+	}
+	vpCover(a1 && a2, "both accepted")
+	vpCover(a1 != a2 && s1 != s2, "one ignored because it lost the race")
+}
